@@ -168,7 +168,7 @@ func init() {
 		Rule: "library-written files (C01 workload, reduced) and foreign-written files (C04 writer, optional/unknown metadata present); ReadMetaData converted to a field-id tree by reflection and compared with the reference decode of the footer " +
 			"(restricted to field ids the repository's thrift schema knows); PageHeaders and PageHeadersAtOffset(chunk start, chunk num_values / 0) compared header by header with an independent page walk; " +
 			"distinct = layout (shape, row groups, pages per chunk, codecs, options); non-trivial = >= 2 row groups or a multi-page chunk",
-		Require: []string{"files_library_written", "files_foreign_written", "files_with_3_pages_and_2_row_groups", "atoffset_calls"},
+		Require: []string{"files_library_written", "files_foreign_written", "files_with_3_pages_and_2_row_groups", "atoffset_calls", "files_without_rows", "files_foreign_unsupported_feature"},
 	})
 	addSpec(&Spec{ID: "C07", Title: "level streams are valid hybrid RLE; encode/decode are inverses", Level: "exploration",
 		Shapes: []string{"p8"},
